@@ -162,6 +162,10 @@ fn compare(base: &Snap, got: &Snap, allowance: &BTreeMap<Vec<u8>, u32>, ctx: &st
     None
 }
 
+pub fn compare_pub(base: &Snap, got: &Snap, ctx: &str) -> Option<(String, String)> {
+    compare(base, got, &BTreeMap::new(), ctx)
+}
+
 pub struct FaultRun {
     pub violation: Option<(String, String)>,
     pub crashed_in: Option<String>,
